@@ -44,11 +44,12 @@ LitKernels(poss) ==
 \* value sets (a .cfg cannot contain negative numbers)
 DesignArgs   == -3..6
 QuickArgs    == {-2, 0, 1, 3}
-ThoroughArgs == {-3, -2, 0, 1, 2, 3, 5}
+ThoroughArgs == {-3, -2, 0, 1, 3, 5}
 
 AllClasses == Classes \ {"lit", "var"}
 QuickShapes == { <<"lt", TRUE, "preinc">>, <<"le", TRUE, "addeq">>, <<"gt", TRUE, "predec">>,
                  <<"ge", TRUE, "subeq">>, <<"ge", FALSE, "postinc">> }
+InnerShapes == QuickShapes \cup { <<"lt", FALSE, "subeq">>, <<"gt", TRUE, "postdec">>, <<"le", TRUE, "postinc">> }
 AlignedShapes == {s \in Cmps \X BOOLEAN \X Upds : IsAlignedShape(s[1], s[2], s[3])}
 
 QuickKernels ==
@@ -56,6 +57,6 @@ QuickKernels ==
   \cup ClassKernels({"inner"}, { <<"lt", TRUE, "preinc">>, <<"ge", TRUE, "subeq">> }, {"add", "band", "tern", "shl"})
   \cup LitKernels({"outer", "inner"})
 ThoroughKernels ==
-  PlainKernels({"outer", "inner"}, {"int", "long"}) \cup ClassKernels({"outer", "inner"}, AlignedShapes, AllClasses)
-  \cup LitKernels({"outer", "inner"})
+  PlainKernels({"outer", "inner"}, {"int", "long"}) \cup ClassKernels({"outer"}, AlignedShapes, AllClasses)
+  \cup ClassKernels({"inner"}, InnerShapes, AllClasses) \cup LitKernels({"outer", "inner"})
 =============================================================================
